@@ -164,6 +164,15 @@ def run_property(prop, tier, replay_key=None):
         if o.get('detail'):
             print('  %s' % o['detail'])
 
+    selftest = None
+    if tier == 'thorough' and not replay_key and not os.environ.get('GV_REPO'):
+        selftest = run_selftest(prop)
+        if selftest:
+            print('[%s] checker self-test: %d mutants of this property + %d benign refactorings: %d ok, %d stale, %d not as expected' % (
+                prop, selftest['mutants'], selftest['benign'], selftest['ok'], selftest['stale'], selftest['bad']))
+            for r in selftest['results']:
+                if r['verdict'] not in ('ok',):
+                    print('  selftest %-12s %s %s' % (r['verdict'], r['name'], r['detail'][:100]))
     wall = time.time() - t0
     distinct = sum(1 for r in main.rules.values() if r['obligations'] > 0)
     ev = {
@@ -189,6 +198,7 @@ def run_property(prop, tier, replay_key=None):
             'tables': main.tables[:40],
             'known_findings_rederived': sorted(known_hit.keys()),
             'fact_generation': infos,
+            'checker_selftest': selftest,
             'exhaustive': False,
         },
         'assumptions': getattr(mod, 'ASSUMPTIONS', []) + [
@@ -204,6 +214,33 @@ def run_property(prop, tier, replay_key=None):
     print('[%s] tier=%s obligations=%d discharged=%d known=%d violations=%d wall=%.1fs' % (
         prop, tier, n_ob, n_ok, len(known_hit), len(viol), wall))
     return 1 if viol else 0
+
+
+def run_selftest(prop):
+    """Thorough tier: run this property's mutants (and the benign refactorings, restricted to this
+    property's check) on scratch copies of /repo.  Informational: the verdict of the property is
+    decided on /repo only."""
+    import subprocess
+    import tempfile
+    tool = os.path.join(VERIF, 'tools', 'selftest.py')
+    if not os.path.exists(tool):
+        return None
+    out = tempfile.NamedTemporaryFile(prefix='gv-selftest.', suffix='.json', delete=False)
+    out.close()
+    try:
+        subprocess.run([sys.executable, tool, '--props', prop, '--jobs', '2', '--json', out.name], stdout=subprocess.PIPE, stderr=subprocess.STDOUT, text=True)
+        with open(out.name) as f:
+            res = json.load(f)
+    except Exception:
+        return None
+    finally:
+        try:
+            os.unlink(out.name)
+        except OSError:
+            pass
+    return {'mutants': sum(1 for r in res if r['property'] == prop), 'benign': sum(1 for r in res if r['property'] is None),
+            'ok': sum(1 for r in res if r['verdict'] == 'ok'), 'stale': sum(1 for r in res if r['verdict'] == 'stale'),
+            'bad': sum(1 for r in res if r['verdict'] not in ('ok', 'stale')), 'results': res}
 
 
 def main(argv):
